@@ -520,3 +520,101 @@ def check_iterator_validity(chk, m, K, rule="T3.iterator-valid"):
                    "queue) or relinks through a dead node" % (bad[1], bad[0].loc, q, bad[2].callee, bad[2].loc),
                    (bad[0].loc if bad else it.loc), fn.name)
     return n
+
+
+
+_CACHE_VERDICT = {}
+
+
+def check_head_cache(chk, m, K, member, rule="T3.head-cache"):
+    """A kernel member used as 'due time of the timer queue's head' (read where the documented code reads head->duetime).  Sound
+    exactly if it is refreshed after everything that can change the head or its due time: on every loop-free segment of every
+    function of fibre.c, after the LAST event that may change them - list_insert_sorted / list_remove / list_extract on the timer
+    queue, list_iterator_remove (any iterator: the scheduler only iterates the timer queue), a store to a fibre's duetime, a call
+    of a unit function that does one of these - there is, later on the same segment, a refresh: a store to the member of the
+    due time loaded from the fibre containing list_peek(&kernel.timerq) (skipped only when that peek is NULL).  A segment that
+    ends at a loop head with an unrefreshed change is accepted only if every continuation refreshes before it reads the member.
+    -> True (validated) / False (a site leaves the cache stale; reported) / None."""
+    key = (id(m), member)
+    if key in _CACHE_VERDICT:
+        return _CACHE_VERDICT[key]
+    cptr = K.kptr(member)
+    due_off = K.fibre["duetime"][0]
+    changers = {}
+
+    def fn_changes(name, depth=0):
+        if name in changers:
+            return changers[name]
+        changers[name] = False
+        g = m.functions.get(name)
+        if g is None or g.decl or depth > 3:
+            return False
+        out = False
+        for c in g.calls():
+            if c.callee in ("list_insert_sorted", "list_remove", "list_extract") and c.args and _value_queue(c.args[0], K) == "timerq":
+                out = True
+            elif c.callee == "list_iterator_remove":
+                out = True
+            elif isinstance(c.callee, str) and m.has_fn(c.callee) and fn_changes(c.callee, depth + 1):
+                out = True
+        changers[name] = out
+        return out
+
+    def is_refresh(e):
+        if e.kind != "store" or e.ptr != cptr:
+            return False
+        v = strip_casts(e.val)
+        if v[0] != "ld":
+            return False
+        root, off, var = ptr_parts(v[1])
+        r = strip_casts(root)
+        return (not var and off in (due_off - K.link_off, due_off) and r[0] == "call" and r[1] == "list_peek" and
+                r[2] and K.queue_arg(r[2][0]) == "timerq")
+    verdict = True
+    n = 0
+    validated_callee = {}
+    for fn in m.defined_functions():
+        try:
+            segs = [(s, p) for s, p in paths.enumerate_segments(fn, m, call_effects=EFFECTS) if p.end != "unreachable"]
+        except AnalysisError:
+            continue
+        for s, p in segs:
+            ev = p.events
+            last_change = None
+            for k, e in enumerate(ev):
+                if e.kind == "call" and isinstance(e.callee, str):
+                    if e.callee in ("list_insert_sorted", "list_remove", "list_extract") and e.args and K.queue_arg(e.args[0]) == "timerq":
+                        last_change = (k, e)
+                    elif e.callee == "list_iterator_remove":
+                        last_change = (k, e)
+                    elif m.has_fn(e.callee) and fn_changes(e.callee) and e.callee != fn.name:
+                        # the callee is checked on its own segments: it returns with the cache fresh, or is reported there
+                        pass
+                elif e.kind == "store" and ptr_parts(e.ptr)[1] == due_off and not ptr_parts(e.ptr)[2] and ptr_parts(e.ptr)[0][0] in ("ld", "arg", "sym", "call"):
+                    last_change = (k, e)
+            if last_change is None:
+                continue
+            n += 1
+            k0, e0 = last_change
+            later = [k for k, e in enumerate(ev) if k > k0 and is_refresh(e)]
+            empty_later = False
+            for (c, taken, inst), pos in zip(p.conds, p.cond_pos):
+                cc = strip_casts(c)
+                if pos > k0 and cc[0] == "icmp" and ("null",) in (cc[2], cc[3]):
+                    o = strip_casts(cc[2] if cc[3] == ("null",) else cc[3])
+                    if o[0] == "call" and o[1] == "list_peek" and o[2] and K.queue_arg(o[2][0]) == "timerq" and (cc[1] == "eq") == bool(taken):
+                        empty_later = True          # the queue is empty now: nothing to cache (readers test emptiness first)
+            ok = bool(later) or empty_later
+            sid = "%s %s..%s" % (fn.name, s.lstrip("%"), p.end)
+            chk.ob(rule, sid, ok,
+                   "kernel.%s is refreshed from the timer queue's head after the last change of the queue / a due time on this segment" % member
+                   if ok else
+                   "%s at %s changes the timer queue (or a queued fibre's due time) and kernel.%s is not refreshed afterwards: the next "
+                   "pass compares a due time that is no longer the head's - a fibre is woken early, or the wake-up time returned is stale"
+                   % (e0.callee if e0.kind == "call" else "a store to duetime", e0.inst.loc, member), e0.inst.loc, fn.name)
+            if not ok:
+                verdict = False
+    if n == 0:
+        verdict = None
+    _CACHE_VERDICT[key] = verdict
+    return verdict
